@@ -70,9 +70,42 @@ def breakdown(cases):
     return b
 
 
+def checked_in_parsers():
+    """Informational: the generated parsers CHECKED IN to the repository (rustfmt-formatted products
+    of the real build) are decoded with the same source decoder and compared with a fresh analysis of
+    their grammar. A difference means the checked-in file predates a generator change (it is not what
+    the current generator emits), so it is reported, not counted as a violation of the property."""
+    import glob
+    res = {"compared": 0, "agree": 0, "differ": []}
+    files = sorted(glob.glob(os.path.join(common.REPO, "examples", "*", "*_parser.rs")) +
+                   glob.glob(os.path.join(common.REPO, "crates", "parol", "src", "parser", "*_parser.rs")))
+    reqs, names = [], []
+    for f in files:
+        pars = [p for p in sorted(glob.glob(os.path.join(os.path.dirname(f), "*.par"))) if "-exp" not in p]
+        if not pars:
+            continue
+        p = subprocess.run([common.PV, "c21", "pair", pars[0], "5", f], capture_output=True, text=True)
+        line = [l[3:] for l in p.stdout.split("\n") if l.startswith("@@ d3 ")]
+        if line:
+            reqs.append("d3-check " + line[0].split(" ", 1)[1])
+            names.append(os.path.relpath(f, common.REPO))
+    reps = common.model_lines(reqs) if reqs else []
+    for n, r in zip(names, reps):
+        res["compared"] += 1
+        if r == "ok":
+            res["agree"] += 1
+        else:
+            res["differ"].append(f"{n}: {r}")
+    return res
+
+
 def extra(ctx, state):
     cases = [c for c in common.read_lines(ctx.path("cases.txt")) if c.startswith("d3 ")]
+    cip = checked_in_parsers()
+    if cip["differ"]:
+        ctx.notes.append("checked-in generated parsers that differ from a fresh generation (informational): " + "; ".join(cip["differ"]))
     state["coverage_extra"] = {
+        "checked_in_parsers_informational": cip,
         "programs": len(cases),
         "disagreements_checked": 6 * state.get("oracle_checked", 0),
         "samples": [describe(c) for c in (cases[:3] + cases[-3:])],
@@ -89,7 +122,7 @@ SPEC = {
     "extra": extra,
     "level": "translation_validation",
     "rule": "programs = grammars parol accepts: 7 hand-picked grammars (equal text in \"..\", '..', /../; lookahead; scanner states with "
-            "%on/%skip), every *.par under examples/ and crates/parol/data/valid up to 20 kB (quick) / all (thorough), and 2000 (quick) / 20000 (thorough) random PAR "
+            "%on/%skip), every *.par under examples/ and crates/parol/data/valid up to 20 kB (quick) / all (thorough), and 2000 (quick) / 60000 (thorough) random PAR "
             "texts (1-4 non-terminals + 0-3 primary non-terminals, terminals drawn from a per-grammar bias of 1-3 texts in all three "
             "quoting styles, 1/5 with ?= / ?! lookahead, 0-2 %scanner states with <State> prefixes, %on ... %enter/%push/%pop, %skip, "
             "comments / auto_newline_off / auto_ws_off / allow_unmatched, 1/3 LALR(1), EBNF groups) kept when the real pipeline accepts "
